@@ -93,9 +93,16 @@ def run_unattached(case):
         mesh = fem.Mesh(pts, cells, base.cell_type)
         region = zoo.region(mk, mesh)
         Fc = fem.Field if fk == "3d" else fem.FieldPlaneStrain
-        for blab in ("None", "empty-dict", "clamped-face"):
-            field = fem.FieldContainer([Fc(region, dim=d)])
-            body = fem.SolidBody(fem.LinearElasticLargeStrain(E=2.0, nu=0.3), field, density=1.5)
+        for blab, fkind in itertools.product(("None", "empty-dict", "clamped-face"), ("vector", "scalar")):
+            # (scalar: a one-component field on the same mesh -- a membrane / potential problem -- whose number of components
+            #  differs from the mesh dimension)
+            fd = d if fkind == "vector" else 1
+            if fkind == "vector":
+                field = fem.FieldContainer([Fc(region, dim=d)])
+                body = fem.SolidBody(fem.LinearElasticLargeStrain(E=2.0, nu=0.3), field, density=1.5)
+            else:
+                field = fem.FieldContainer([fem.Field(region, dim=1)])
+                body = fem.SolidBody(fem.Laplace(), field, density=1.5)
             attached = np.setdiff1d(np.arange(mesh.npoints), loose)
             if blab == "clamped-face":
                 m_ = np.zeros(mesh.npoints, dtype=bool)
@@ -106,13 +113,16 @@ def run_unattached(case):
                 bounds = None if blab == "None" else {}
                 fixed = np.array([], dtype=int)
             held = np.union1d(loose, fixed)
-            exp1 = np.setdiff1d(np.arange(mesh.npoints * d), (d * held[:, None] + np.arange(d)).ravel())
-            sub = f"{plab}/boundaries={blab}"
+            exp1 = np.setdiff1d(np.arange(mesh.npoints * fd), (fd * held[:, None] + np.arange(fd)).ravel())
+            sub = f"{plab}/boundaries={blab}" + ("" if fkind == "vector" else "/scalar-field")
             job = fem.FreeVibration([body], bounds)
             v0 = 1.0 + zoo.offarr(seed, 1810, (len(exp1),))
             st["trans"] += 1
             try:
-                job.evaluate(solver=lambda A, M, sigma, **kw: eigsh(A, M=M, sigma=-0.7, **kw), k=4, **(dict(v0=v0) if True else {}))
+                kk_ = min(4, len(exp1) - 2)
+                if kk_ < 1:
+                    continue
+                job.evaluate(solver=lambda A, M, sigma, **kw: eigsh(A, M=M, sigma=-0.7, **kw), k=kk_, **(dict(v0=v0) if True else {}))
             except Exception as ex:  # noqa
                 bad(sub + "/exception", "modal analysis of a mesh with points without cells raised", repr(ex)[:160], "eigenpairs on the unknowns of attached points")
                 continue
@@ -151,7 +161,7 @@ def run_unattached(case):
                         bad(sub + f"/extract/values={lay}/inplace={inpl}/exception", "extract raised for a field held in another memory layout", repr(ex)[:160], "the mode")
                         continue
                     st["traces"] += 1
-                    want_ = np.zeros(mesh.npoints * d)
+                    want_ = np.zeros(mesh.npoints * fd)
                     want_[exp1] = V[:, 0]
                     got_ = np.asarray(fx[0].values, dtype=float).reshape(-1)
                     if np.abs(got_ - want_).max() > 1e-14 * max(np.abs(want_).max(), 1e-300):
